@@ -57,10 +57,35 @@ def main():
             "kind_free_text": "Rocq (Coq 8.16.1) theorems about a Gallina model; model regenerated tables (gotables) + differential execution of the extracted model against the Go implementation; direct oracles on the implementation to find failing inputs",
         }],
         "checks": checks,
-        "notes": "See DESIGN.md. Known findings: known_findings.jsonl. Seeded changes used to validate the checks: seeded/.",
+        "notes": "See DESIGN.md. Known findings: known/C??.jsonl (one file per property, read by the checks, never written at run time; "
+                 "entries with status open are printed as KNOWN-FINDING lines, entries with status fixed record the fix: commit and suppress nothing); "
+                 "known/KNOWN_FINDINGS.txt is the same list as plain lines (fixed: property=<id> <commit> <what failed> / open: ...). "
+                 "Seeded changes used to validate the checks: seeded/ (RESULTS.md).",
         "not_applicable": na,
     }
     json.dump(m, open(os.path.join(V, "MANIFEST.json"), "w"), indent=1)
+    write_known_list()
+
+
+def write_known_list():
+    """known/KNOWN_FINDINGS.txt: every entry of known/C??.jsonl as one plain line"""
+    import glob
+    lines = []
+    for f in sorted(glob.glob(os.path.join(V, "known", "C*.jsonl"))):
+        for l in open(f):
+            l = l.strip()
+            if not l or l.startswith("#"):
+                continue
+            e = json.loads(l)
+            st, what = e.get("status", "?"), " ".join(str(e.get("what", "")).split())
+            if st == "fixed":
+                line = e.get("line") or "fixed: property=%s %s %s" % (e.get("property"), "+".join(str(e.get("commit", "")).split()), what)
+                if not line.startswith("fixed:"):
+                    line = "fixed: property=%s %s %s" % (e.get("property"), "+".join(str(e.get("commit", "")).split()), what)
+                lines.append("%s  [%s]" % (line, e.get("id")))
+            else:
+                lines.append("%s: property=%s %s %s" % (st, e.get("property"), e.get("id"), what))
+    open(os.path.join(V, "known", "KNOWN_FINDINGS.txt"), "w").write("\n".join(lines) + "\n")
 
 if __name__ == "__main__":
     main()
